@@ -30,6 +30,10 @@ pub enum Op {
     /// READY and then stays connected without sending more (a handshake pending at whatever
     /// comes next - in particular at an unbind of that endpoint)
     StallIn(usize, usize),
+    /// one accept() on live bind #k FAILS (the process is out of file descriptors at the moment
+    /// a client connects; done by lowering RLIMIT_NOFILE for a few milliseconds): the endpoint
+    /// stays bound and must go on accepting afterwards
+    AcceptError(usize),
 }
 
 #[derive(Debug, Clone, Serialize, Deserialize, PartialEq, Eq, Hash)]
@@ -261,6 +265,38 @@ pub fn bind_outcome(c: &BindCase) -> Outcome {
                             Err(e) => fail!(f, format!("C18/{}/bound-endpoint-does-not-accept", who), "op {}: connect to {} failed: {}", opi, live[k].text, e),
                         }
                     }
+                    Op::AcceptError(k) => {
+                        if live.is_empty() {
+                            continue;
+                        }
+                        let k = *k % live.len();
+                        classes.push("accept-error-on-a-bound-endpoint".into());
+                        // lowest free descriptor number L: with the soft limit at L + 1 exactly
+                        // one more descriptor can be opened - the client's; the listener's
+                        // accept() then fails with EMFILE
+                        let used: std::collections::BTreeSet<u64> = std::fs::read_dir("/proc/self/fd").map(|d| d.filter_map(|e| e.ok()?.file_name().to_str()?.parse().ok()).collect()).unwrap_or_default();
+                        let mut lowest_free = 0u64;
+                        while used.contains(&lowest_free) {
+                            lowest_free += 1;
+                        }
+                        let mut old = libc::rlimit { rlim_cur: 0, rlim_max: 0 };
+                        unsafe { libc::getrlimit(libc::RLIMIT_NOFILE, &mut old) };
+                        let low = libc::rlimit { rlim_cur: lowest_free + 1, rlim_max: old.rlim_max };
+                        unsafe { libc::setrlimit(libc::RLIMIT_NOFILE, &low) };
+                        let rc = realnet::raw_connect(&live[k].text).await;
+                        tokio::time::sleep(std::time::Duration::from_millis(15)).await;
+                        unsafe { libc::setrlimit(libc::RLIMIT_NOFILE, &old) };
+                        drop(rc);
+                        tokio::time::sleep(std::time::Duration::from_millis(5)).await;
+                        // the endpoint is still bound: it accepts the next client
+                        match realnet::raw_connect(&live[k].text).await {
+                            Ok(mut rc) => match rc.handshake(kind.a_compatible_peer(), None).await {
+                                Ok(()) => conns.push((rc, live[k].text.clone())),
+                                Err(e) => fail!(f, format!("C18/{}/bound-endpoint-does-not-accept", who), "op {}: after ONE failed accept() (descriptor limit reached for 15 ms) the handshake on {} fails: {}", opi, live[k].text, e),
+                            },
+                            Err(e) => fail!(f, format!("C18/{}/bound-endpoint-does-not-accept", who), "op {}: after ONE failed accept() (descriptor limit reached for 15 ms) connecting to {} fails: {}", opi, live[k].text, e),
+                        }
+                    }
                     Op::Exchange(j) => {
                         if conns.is_empty() {
                             continue;
@@ -342,7 +378,7 @@ pub fn gen_bind(s: &mut Src<'_>) -> BindCase {
     let n = s.range(4, 14);
     let mut ops = vec![Op::Bind(s.pick(&[Transport::TcpV4, Transport::Ipc]))];
     for _ in 0..n {
-        let op = match s.weighted(&[5, 2, 1, 4, 2, 4, 4, 2]) {
+        let op = match s.weighted(&[5, 2, 1, 4, 2, 4, 4, 2, 1]) {
             0 => Op::Bind(s.pick(&[Transport::TcpV4, Transport::TcpV4, Transport::TcpV6, Transport::TcpLocalhost, Transport::Ipc, Transport::Ipc])),
             1 => Op::BindDuplicate(s.below(8)),
             2 => Op::BindBadIpc,
@@ -350,6 +386,7 @@ pub fn gen_bind(s: &mut Src<'_>) -> BindCase {
             4 => Op::UnbindUnknown(s.below(48)),
             5 => Op::ConnectIn(s.below(8)),
             6 => Op::Exchange(s.below(8)),
+            8 => Op::AcceptError(s.below(8)),
             _ => Op::StallIn(s.below(8), s.pick(&[0usize, 1, 9, 10, 11, 12, 32, 63, 64, 65, 70, 1000])),
         };
         ops.push(op);
@@ -391,6 +428,8 @@ pub fn run(ctx: &Ctx) -> (Report, PropertyMeta) {
                         Op::Exchange(1),
                         Op::UnbindUnknown(0),
                         Op::ConnectIn(0),
+                        Op::AcceptError(0),
+                        Op::Exchange(0),
                         Op::StallIn(0, 0),
                         Op::StallIn(0, 11),
                         Op::StallIn(0, 70),
@@ -403,7 +442,7 @@ pub fn run(ctx: &Ctx) -> (Report, PropertyMeta) {
         }
     }
     let r = run_cases(ctx, "bind", &cases, bind_outcome);
-    report.exhaustive_parts.push(format!("REP/PULL/ROUTER/PUB x 4 first transports x 2 second transports, fixed 27-op history touching every op kind: {} cases", cases.len()));
+    report.exhaustive_parts.push(format!("REP/PULL/ROUTER/PUB x 4 first transports x 2 second transports, fixed 29-op history touching every op kind: {} cases", cases.len()));
     report.merge(r);
     let n = t.pick(500, 10000);
     let r = run_random(ctx, "bind", n, 30..=60, gen_bind, bind_outcome);
@@ -417,10 +456,11 @@ pub fn run(ctx: &Ctx) -> (Report, PropertyMeta) {
     health_abs(&mut report, "exchange-on-connection-of-an-unbound-endpoint", 20);
     health_abs(&mut report, "unbind-with-a-handshake-pending", 30);
     health_abs(&mut report, "unbind-near-miss-of-a-live-bind", 100);
+    health_abs(&mut report, "accept-error-on-a-bound-endpoint", 30);
 
     let meta = PropertyMeta {
         level: "exploration",
-        rule: "proptest operation sequences (length <= 15) on real REP, PULL, ROUTER and PUB sockets over {bind tcp://127.0.0.1:0, tcp://[::1]:0, tcp://localhost:0, ipc://<fresh path>; bind an endpoint that is already bound; bind an ipc path in a missing directory; unbind a bound endpoint; unbind a never-bound / already unbound endpoint, including near misses of a live bind (its port under another address or under a host name, its address under another port, an ipc path extending a bound one); a raw client connects and completes the handshake; a raw client connects, sends a prefix of its handshake (0..all-but-one bytes) and stays silent; exchange a message on an established connection}, against a reference model of the bind set. Oracle: a successful bind returns an endpoint with a non-zero port whose text form parses back to it and is connectable; binds() equals the model after every operation; a failed bind changes nothing; unbind of a bound endpoint returns (within 5 s, also while connections to it are in the middle of their handshake) Ok, that endpoint refuses connections (IPC file gone) when it returns, every other bound endpoint still completes a handshake and established connections (including those made to the unbound endpoint) still carry a message; anything else fails with NoSuchBind. Non-trivial = an unbind while >= 2 binds exist, or a failed operation; distinct by sequence".into(),
+        rule: "proptest operation sequences (length <= 15) on real REP, PULL, ROUTER and PUB sockets over {bind tcp://127.0.0.1:0, tcp://[::1]:0, tcp://localhost:0, ipc://<fresh path>; bind an endpoint that is already bound; bind an ipc path in a missing directory; unbind a bound endpoint; unbind a never-bound / already unbound endpoint, including near misses of a live bind (its port under another address or under a host name, its address under another port, an ipc path extending a bound one); a raw client connects and completes the handshake; a raw client connects, sends a prefix of its handshake (0..all-but-one bytes) and stays silent; exchange a message on an established connection; one accept() fails because the process is briefly out of file descriptors}, against a reference model of the bind set. Oracle: a successful bind returns an endpoint with a non-zero port whose text form parses back to it and is connectable; binds() equals the model after every operation; a failed bind changes nothing; unbind of a bound endpoint returns (within 5 s, also while connections to it are in the middle of their handshake) Ok, that endpoint refuses connections (IPC file gone) when it returns, every other bound endpoint still completes a handshake and established connections (including those made to the unbound endpoint) still carry a message; anything else fails with NoSuchBind. Non-trivial = an unbind while >= 2 binds exist, or a failed operation; distinct by sequence".into(),
         assumptions: vec![
             "'duplicate bind' uses literal-IP and ipc endpoints only: tcp://localhost:P can legally succeed twice (once per address family)".into(),
             "cases run on one thread and a connection that unexpectedly succeeds is retried 3 times (an unrelated process may be handed a just-released port)".into(),
